@@ -376,6 +376,17 @@ func TestC18Sites(t *testing.T) {
 					t0, f0 := a.LendKeeper.GetLendRewardTracker(cctx, lendID)
 					st0, _ := a.LendKeeper.GetAssetStatsByPoolIDAndAssetID(cctx, poolID, debt)
 					mb0 := a.LendKeeper.ModuleBalance(cctx, "cmdx", "uc18d")
+					// the accrual the site must add, by the real functions on the operands it must select
+					var dnew sdk.Dec = z
+					var derr error
+					dp, _ := safely(func() {
+						apr, _ := a.LendKeeper.GetLendAPRByAssetIDAndPoolID(cctx, poolID, debt)
+						dnew, _, derr = a.LendKeeper.CalculateLendReward(cctx, lb.AmountIn.Amount.String(), apr, lb)
+					})
+					dc := cls(dp, derr)
+					if dc != "ok" {
+						dnew = z
+					}
 					var idx sdk.Dec = z
 					var err error
 					bctx, write := cctx.CacheContext()
@@ -393,10 +404,10 @@ func TestC18Sites(t *testing.T) {
 					}
 					la, _ := a.LendKeeper.GetLend(cctx, lendID)
 					t1, f1 := a.LendKeeper.GetLendRewardTracker(cctx, lendID)
-					tr.p("o IL %d %s %s %s %d %s %s %d %s %s %s %s %s %s %d %s %s %s", now, mb0, st0.TotalBorrowed, st0.TotalStableBorrowed,
+					tr.p("o IL %d %s %s %s %d %s %s %d %s %s %s %s %s %s %d %s %s %s %s %s", now, mb0, st0.TotalBorrowed, st0.TotalStableBorrowed,
 						lb.LastInteractionTime.Unix(), lb.AmountIn.Amount, lb.GlobalIndex.BigInt(),
 						c18b2i(f0), c18DecStr(t0.RewardsAccumulated), lb.AvailableToBorrow, lb.TotalRewards, st0.TotalInterestAccumulated,
-						c1, c18DecStr(idx), c18b2i(f1), c18DecStr(t1.RewardsAccumulated), la.AvailableToBorrow, la.TotalRewards)
+						c1, c18DecStr(idx), c18b2i(f1), c18DecStr(t1.RewardsAccumulated), la.AvailableToBorrow, la.TotalRewards, dc, c18DecStr(dnew))
 					// the callers store the returned index and the interaction time (keeper.go UpdateLendStats & co.)
 					if c1 == "ok" && !idx.IsNil() && idx.IsPositive() {
 						la.GlobalIndex = idx
